@@ -101,7 +101,7 @@ def check_exit(eng: Engine, contract: Contract, kind, st: State, val, self_ref, 
         so = getattr(eng.reg, "str_of", {}).get(getattr(getattr(result, "ty", None), "name", None)) if isinstance(result, Val) else None
         if so is not None and contract.result == STR:
             result = Val(so(result), STR)
-        result = coerce(result, contract.result)
+        result = eng.need(st, result, contract.result)    # Optional values are unwrapped under a not-None obligation
     post_extra = {}
     for pn in getattr(contract, "mutable_params", ()):
         cur = st.env.get(pn)
